@@ -43,7 +43,9 @@ def run(ch, build):
             # a 20-byte password of which the BMC only holds a prefix (16, 17, 19 bytes), or the caller only a prefix
             variants += [("bmcprefix16", "LONG16", None, False), ("bmcprefix17", "LONG17", None, False), ("bmcprefix19", "LONG19", None, False)]
             if kg:
-                variants += [("wrongkg", None, bytes(range(1, 21)), False), ("kgprefix", None, kgv[:7] + bytes(13), False)]
+                variants += [("wrongkg", None, bytes(range(1, 21)), False), ("kgprefix", None, kgv[:7] + bytes(13), False),
+                             # the caller uses K_G, the BMC has none (its SIK is keyed with the user's password), or its K_G IS the password
+                             ("bmcnokg", None, b"", False), ("bmckgispw", None, pw, False)]
             else:
                 variants += [("bmchaskg", None, kgv, False)]
             longpw = b"a-twenty-byte-secret"
@@ -93,6 +95,29 @@ def run(ch, build):
                 s["steps"] = [hs.open_step(password=pw, kg=kg, suites=[su], script=["ok"] * ex + [mu])]
                 s["variant"] = "%d:%s" % (ex, mu.split(":")[0]); s["mutation"] = (ex, mu); s["suite"] = su
                 scns.append(s)
+    # the version-agnostic entry point NewSession(ctx, *SessionOpts) (what programs written against the Session interface
+    # call): the same verdicts and the same sentinel
+    nscns = []
+    for name, use_pw, expect in (("same", pw, "nil"), ("wrongpw", b"incorrect horse", "ErrIncorrectPassword"), ("prefix", pw[:-1], "ErrIncorrectPassword"),
+                                 ("emptypw", b"", "ErrIncorrectPassword"), ("zeropadded", pw + b"\x00\x00", "nil")):
+        for modern in (True, False):
+            nscns.append({"bmc": conn.default_bmc(seed=14, suites=[[3, 1, 1, 1]] + ([[17, 3, 4, 1]] if modern else []),
+                                                  users=[{"name": "admin", "password": pw.hex(), "maxpriv": 4}]), "timeout_ms": 40,
+                          "variant": name, "expect": expect,
+                          "steps": [dict(hs.open_step(password=use_pw, suites=[]), via_newsession=True),
+                                    {"op": "cmd", "conn": "session", "cmd": {"name": "getdeviceid"}, "script": ["ok"]}]})
+    for scn, out in zip(nscns, conn.run_scenarios(nscns)):
+        res = out["steps"][0]
+        desc = {"kind": "c02", "variant": "newsession-" + scn["variant"]}
+        ch.note_case("c02-newsession", "%s|%s" % (scn["variant"], scn["bmc"]["suites"]))
+        if res.get("panic"):
+            ch.violation(dict(desc, kind="panic"), {"scenario": scn, "panic": res["panic"]})
+        elif res["err"] != scn["expect"]:
+            ch.violation(desc, {"scenario": scn, "what": "NewSession: expected %s, got %s (%s)" % (scn["expect"], res["err"], res.get("errtext"))})
+        elif res["err"] == "nil":
+            b = hs.bmc_session_for(out, res)
+            if b is None or not b["active"] or out["steps"][1]["err"] != "nil":
+                ch.violation(desc, {"scenario": scn, "what": "NewSession returned a session the BMC did not authenticate"})
     outs = conn.run_scenarios(scns)
     lines = []
     for scn, out in zip(scns, outs):
